@@ -89,15 +89,18 @@ PROPS = {
             "the pty line discipline in raw mode passes bytes through unchanged; one read() returns everything queued (<= 1024)",
             "ESC ESC: poll(100 ms) is modelled as 'the next key press arrives within the window' (the harness delivers it as soon as the reader blocks)",
             "SIGWINCH / SIGTSTP / real select-poll timing are exercised by the harness only (thorough tier), not proved"],
-        "unproved": ["C17_editor_no_panic_statement"],
+        "unproved": ["C17_editor_no_panic_statement (as written not provable: completer start off a boundary, D43; proved with strengthened hypotheses: C17_editor_no_panic_emacs unconditionally, C17_editor_no_panic for both modes)", "ViPreKeeps (the vi-mode hypothesis of C17_editor_no_panic: the dispatch loop keeps the undo-log invariant; proved in emacs mode only)"],
         "level_text": "EMACS MODE, UNCONDITIONAL in the model (round 13): C17_editor_no_panic_emacs - for helpers that do not panic, indent size <= 255, "
                       "a completer start on a character boundary at or before the cursor, a stable segmenter and acceptable bindings (BindsI), if readline "
                       "ends with the panic outcome then its final state is a D43 state; no open obligation: C17_open_emacs instantiates C17_Open with the "
                       "concrete cross-step invariant J = UndoLogInv (the undo stack replays to the line), carried by a sixth structural pass (LogK / em_log, "
                       "Lemmas/EditorLog.lean: logK_execute for every command but Undo, logK_nextCmd for both modes, logJ_preCmds for the emacs-mode "
-                      "sub-loops incl. their abort paths) over the Replays facts of every line-buffer method, C05_log_replay and C05_log_markers. VI MODE: the "
-                      "same theorem still rests on C17_Open (only its field pre - the dispatch loop keeps J - is not proved there: a vi abort needs the "
-                      "running-minimum mark / truncateClosed analysis). "
+                      "sub-loops incl. their abort paths) over the Replays facts of every line-buffer method, C05_log_replay and C05_log_markers. BOTH MODES: C17_editor_no_panic - the same statement, where vi mode "
+                      "additionally assumes ViPreKeeps (the dispatch loop keeps J; every other field of C17_Open is proved for vi too: C17_open_of_pre). "
+                      "Why it is open: after a key that left insert mode inside a search, end() has popped the search's Begin and the listener can MERGE "
+                      "what the search logs into the entry below the mark (finding D49, a wrong Undo - x y Backspace C-r C-s a a Alt-X C-r Alt-X C-g u "
+                      "gives xyx - but no panic: model and code agree); the remaining log then replays to a prefix of the line, which still satisfies "
+                      "UndoLogInv by replayLog_suffix / undoLogInv_of_prefix (proved), but the vi loop invariant itself is not formalized. "
                       "Lean theorems about the input-queue model (a byte read consumes exactly one byte, fails only on hang-up, waiting "
                       "loses nothing) and an executable model of the whole decoder and editor that is diffed against the real "
                       "Editor::readline on a pseudo-terminal for arbitrary byte streams; the no-panic / no-wedge / no-stall oracle runs "
@@ -544,7 +547,7 @@ PROPS["C02"] = {
                       "hypothesis on segmenter, width table and alphabet) LogPlain follows from LogAlpha A - every logged prompt, line and hint is "
                       "written over A, no segmenter in it (logPlain_of_alpha; C02_editor_shows_alpha). That the characters reaching the screen are "
                       "those of the inputs (a closure invariant over line, saved line, kill ring, undo log through every line-buffer operation, and "
-                      "which characters the key maps put into commands) is not proved: LogAlpha stays a hypothesis on the produced log. Every command of execute (pres_execute), listing and circular completion and - since "
+                      "which characters the key maps put into commands) is not proved: LogAlpha stays a hypothesis on the produced log. First stage of that step (round 7, Rl/Lemmas/AlphaLM.lean, C02_alpha_ops): the line-buffer closure calculus AOp A op - from a buffer over A, whenever op returns, the new buffer, every answered text and every notified text (what reaches undo log and kill ring) are over A - with rules for the primitives and a structural tactic, proved for 31 operations (insert, insert_str, yank, yank_pop, delete, backspace, every kill, transpose_chars/words, update, replace, delete_range, drain_around, all motions); not covered: edit_word (case mappings), indent (blank), the undo replay, and the editor-level pass with the hypotheses on decoded keys / history / candidates / hints. Every command of execute (pres_execute), listing and circular completion and - since "
                       "the repair of D42 - incremental search (est_searchLoop) are lifted. "
                       "The differential check covers the real Editor::readline "
                       "on a pty at widths 2..40 and 80, its output interpreted by the Lean terminal emulator at every Event::Any "
